@@ -144,10 +144,107 @@ def ob_roundtrip(ctx, L, N):
     return verdict(ctx, props, witness=wit, sample=lambda m: wit(m))
 
 
+def alias_spellings():
+    """every registered alias and codec module name of the platform (the concrete catalogue behind the families)"""
+    names = set(codecnames.ALIASES) | set(codecnames.MODULES) | {v for v in codecnames.ALIASES.values()}
+    out = []
+    for n in sorted(names):
+        try:
+            info = codecs.lookup(n)
+        except LookupError:
+            continue
+        if stateless_info(info)[0]:
+            out.append(n)
+    return out
+
+
+def family_name(ctx, alias):
+    """symbolic spelling of the same length as `alias`: every letter in either case, every separator '_' or '-'"""
+    name = sym_str(ctx, 'e', len(alias), max_cp=0x7f)
+    for e, c in zip(name.el, alias):
+        o = ord(c)
+        if c.isalpha():
+            ctx.assume(z3.Or(e == ord(c.lower()), e == ord(c.upper())))
+        elif c in '_-':
+            ctx.assume(z3.Or(e == 95, e == 45))
+        else:
+            ctx.assume(e == o)
+    ctx.assume(neg(nfa_formula(r'[+-]?[0-9]+(?:_[0-9]+)*', name.el)))
+    return name
+
+
+def ob_family(ctx, aliases, roundtrip):
+    import pydiffx.utils.text as T
+    alias = ctx.pick('alias', aliases)
+    name = family_name(ctx, alias)
+    enc, info = _resolve(name)
+    if info is None:
+        return skip('spelling family member is not a codec name')
+    good, bom = stateless_info(info)
+    if not good:
+        return skip('stateful or non-text codec: %s' % info.name)
+    wit = lambda m: {'kind': 'newline', 'name': model_str(m, name), 'codec': info.name}
+    props = []
+    for kind in ('unix', 'dos'):
+        try:
+            got = T.get_newline_for_type(kind, encoding=name)
+        except Exception as e:
+            return viol('get_newline_for_type-raised:%s' % type(e).__name__, wit(ctx.model()))
+        props.append(('newline-bytes[%s]' % kind, seq_eq(got, expected_newline(info, kind))))
+    raw = info.encode('\n')[0]
+    props.append(('strip_bom', seq_eq(T.strip_bom(raw, name), raw[len(bom):])))
+    out = verdict(ctx, props, witness=wit, sample=lambda m: wit(m))
+    if out['k'] != 'ok' or not roundtrip or not bom:
+        return out
+    # BOM-emitting codecs: also the full write/read round trip under this spelling
+    return _roundtrip(ctx, name, info, 'hi', None)
+
+
+def _roundtrip(ctx, name, info, text, le):
+    from pydiffx.reader import DiffXReader
+    from pydiffx.writer import DiffXWriter
+    wit = lambda m: {'kind': 'roundtrip', 'name': model_str(m, name), 'codec': info.name, 'text': model_str(m, text),
+                     'line_endings': le}
+
+    def run(encname):
+        st = SymStream()
+        w = DiffXWriter(st)
+        w.new_change()
+        w.write_preamble(text, encoding=encname, indent=1, line_endings=le)
+        w.new_file()
+        w.write_meta({'k': 1})
+        data = st.value()
+        return data, list(DiffXReader(SymStream(data)))
+    try:
+        data0, recs0 = run(info.name)
+    except Exception as e:
+        return skip('canonical spelling fails (%s)' % type(e).__name__)
+    try:
+        data1, recs1 = run(name)
+    except PathTimeout:
+        raise
+    except Exception as e:
+        return viol('spelling-breaks-roundtrip:%s' % type(e).__name__, dict(wit(ctx.model()), error=str(e)[:200]))
+    d0, d1 = lift(data0), lift(data1)
+    c0 = mk_seq(d0.el[d0.find(b'\n', d0.find(b'#..preamble:')) + 1:], bytes)
+    c1 = mk_seq(d1.el[d1.find(b'\n', d1.find(b'#..preamble:')) + 1:], bytes)
+    return verdict(ctx, [('text-read-back', seq_eq(recs1[2].get('text'), recs0[2].get('text'))),
+                         ('bytes-apart-from-name', seq_eq(c0, c1))], witness=wit, sample=lambda m: wit(m))
+
+
 def obligations(tier):
     quick = tier == 'quick'
     L = 6 if quick else 8
+    aliases = alias_spellings()
+    bomfam = [a for a in aliases if stateless_info(codecs.lookup(a))[1]]
+    fam = bomfam + [a for a in aliases if len(a) >= 7][::(4 if quick else 1)]
     return [
+        Ob('families', ob_family, dict(aliases=sorted(set(fam)), roundtrip=True),
+           must_reach=['utils.text:strip_bom'], path_timeout=40,
+           desc='for %d registered aliases / module names of stateless text codecs (all BOM-emitting ones, and the long '
+                'ones%s): the symbolic spelling family "every letter in either case, every separator - or _"; newline '
+                'helpers, and for BOM-emitting codecs the write/read round trip' % (len(set(fam)), ', every 4th' if quick else ''),
+           bounds={'aliases': len(set(fam)), 'family': 'case x separator variants, same length'}),
         Ob('newline[name<=%d]' % L, ob_newline, dict(L=L), must_reach=['utils.text:strip_bom', 'utils.text:get_newline_for_type'],
            path_timeout=30, desc='real get_newline_for_type / strip_bom / guess_line_endings with a symbolic codec-name '
            'spelling of 1..%d characters: result == BOM-free LF/CRLF of the codec the platform resolves the name to' % L,
